@@ -99,16 +99,28 @@ func runC20(c *Ctx) {
 					// evaluate the bound on the function path: find it among the path's values via the body summary
 				}
 				body, _ := s.LoopBody(e.InFn, e.Loop)
+				// a loop that lives in a helper analysed in place sees the helper's parameters: read
+				// them as the arguments the helper was entered with
+				subst := func(x string) string { return x }
+				if e.InFn != sync {
+					for _, en := range ps.Events {
+						if en.Kind == "enter" && en.Fn == e.InFn {
+							fn, args := en.Fn, en.Args
+							subst = func(x string) string { return substParams(x, fn, args) }
+						}
+					}
+				}
 				for _, bp := range body {
 					for _, cd := range bp.Conds {
-						str := cd.V.String()
+						str := subst(cd.V.String())
 						if cd.V.K == KAtom && cd.V.At.Op == "b" && strings.Contains(str, "calculateLowerWaterLevel(") || strings.Contains(str, ">= math.") {
 							if i := strings.Index(str, ">= "); i >= 0 {
 								targets["stop"][strings.TrimRight(roundingOf(str[i+3:]), ")")] = true
 							}
 						}
 						if a, ok := ltForm(cd.V); ok {
-							for t, co := range a.T {
+							for t0, co := range a.T {
+								t := subst(t0)
 								if co == 1 && strings.Contains(t, "math.") && strings.HasPrefix(t, "conv:int(") {
 									targets["surplus"][strings.TrimSuffix(roundingOf(t), ")")] = true
 								}
